@@ -25,6 +25,11 @@ pub fn install_hook() {
             .location()
             .map(|l| format!("{}:{}", l.file(), l.line()))
             .unwrap_or_default();
+        if message.contains("unsafe precondition") || message.contains("panic in a function that cannot unwind") {
+            // the process is about to abort (e.g. a failed unsafe precondition check): leave the
+            // reason on stderr for the driver
+            eprintln!("non-unwinding panic at {location}: {message}");
+        }
         LAST.with(|l| *l.borrow_mut() = Some(PanicInfo { message, location }));
     }));
 }
